@@ -26,8 +26,10 @@ STUB_F = {
     "attr": "f: int\n",          # kind mismatch
     None: "",
 }
-RUNTIME_C = {"yes": 'class C:\n    """C doc"""\n    x = 1\n    def m(self, p):\n        return p\n', None: ""}
-STUB_C = {"yes": "class C:\n    x: int\n    y: str\n    def m(self, p: int) -> bool: ...\n", "func": "def C() -> int: ...\n", None: ""}
+RUNTIME_C = {"yes": 'class C:\n    """C doc"""\n    x = 1\n    def m(self, p):\n        return p\n',
+             # no docstring of its own, a documented member: the stub's class docstring is the one to keep
+             "nodoc": 'class C:\n    x = 1\n    def m(self, p):\n        """m doc"""\n        return p\n', None: ""}
+STUB_C = {"yes": 'class C:\n    """C stub doc"""\n    x: int\n    y: str\n    def m(self, p: int) -> bool: ...\n', "func": "def C() -> int: ...\n", None: ""}
 RUNTIME_V = {"yes": "v = 0\nfrom os import path as i\n", None: ""}
 STUB_V = {"yes": "v: float\ns: int\nfrom os import path as i\n", "alias": "from os import getcwd as v\n", None: ""}
 
@@ -143,6 +145,9 @@ def expected_problems(key, mod, summ):
     if rc and "C" not in summ:
         pr.append("runtime class C lost")
     if rc and sc == "yes" and "C" in summ:
+        want_cdoc = "C doc" if rc == "yes" else "C stub doc"
+        if summ["C"].get("doc") != want_cdoc:
+            pr.append(f"class docstring {summ['C'].get('doc')!r}, expected {want_cdoc!r} (the runtime docstring unless it is missing)")
         cm = summ["C"].get("members", {})
         if "x" not in cm or "m" not in cm:
             pr.append("runtime class members lost")
@@ -153,8 +158,6 @@ def expected_problems(key, mod, summ):
                 pr.append("method annotations not taken from stubs")
             if "y" not in cm or cm["y"].get("runtime") is not False:
                 pr.append("stub-only class member missing or not marked unavailable at runtime")
-        if summ["C"]["doc"] != "C doc":
-            pr.append("runtime class docstring lost")
     if rv:
         if "v" not in summ or "i" not in summ:
             pr.append("runtime attribute / import lost")
